@@ -640,6 +640,124 @@ fn first_use_text(text: &str, case: &mut Case) -> Result<(), String> {
     Ok(())
 }
 
+/// What the coordinate lookups answer for a place must not depend on what was looked up before, nor on how often,
+/// nor on the thread: histories of lookups over a few places that lie a few metres apart on either side of a zone /
+/// country border (`crate::geo`), with places elsewhere in between, and repeated lookups at junctions where a point
+/// of no supported country has several countries within a kilometre.
+fn lookup_histories(ch: &mut Choices, case: &mut Case) -> Result<(), String> {
+    use crate::geo::{self, P};
+    let g = geo::geo();
+    let eval = |p: P| -> String {
+        verif_hooks::reset();
+        verif_hooks::set_limit(Some(2_000));
+        let r = guard(|| {
+            let ctx = Context::from_coords(geo::coords(p));
+            let tz = *ctx.locale.get_timezone();
+            let oh = OpeningHours::parse("sunrise-sunset; PH off").unwrap().with_context(ctx);
+            let t = tz.from_utc_datetime(&NaiveDate::from_ymd_opt(2024, 6, 1).unwrap().and_hms_opt(0, 0, 0).unwrap());
+            format!("{:?}", oh.iter_range(t, t + Duration::days(40)).take(8).map(|i| (i.range, i.kind)).collect::<Vec<_>>())
+        });
+        verif_hooks::set_limit(Some(crate::runner::DEFAULT_WORK_LIMIT));
+        r.unwrap_or_else(|p| format!("PANIC {p}"))
+    };
+    let lookup = |p: P, op: u32| -> String {
+        match op {
+            0 => geo::tz_of(p).to_string(),
+            1 => format!("{:?}", geo::country_of(p)),
+            _ => eval(p),
+        }
+    };
+    let op_name = |op: u32| ["time zone", "country", "evaluation under Context::from_coords"][op as usize];
+    // every case starts from the same recent history (two lookups far from every place it uses), so that a case is
+    // a function of its own choices even if the library keeps state between lookups
+    std::hint::black_box((lookup((-48.5, -150.5), 0), lookup((-48.5, -150.5), 1), lookup((-47.5, -151.5), 0), lookup((-47.5, -151.5), 1)));
+    if ch.chance(25) && !g.junctions.is_empty() {
+        // a point of no country with several countries around it: asked many times, then from several threads
+        let j = &g.junctions[ch.draw(g.junctions.len() as u32) as usize];
+        let p = j.none_points[ch.draw(j.none_points.len() as u32) as usize];
+        // ... and its neighbours a few hundred metres around (the discovery grid is only one sample of the cell)
+        let p = (p.0 + f64::from(ch.int(-4, 4) as i32) * 0.0005, p.1 + f64::from(ch.int(-4, 4) as i32) * 0.0005);
+        case.key = format!("junction of {:?} at ({}, {})", j.countries, p.0, p.1);
+        case.label("junction_of_countries");
+        let first = lookup(p, 1);
+        for k in 0..24 {
+            case.units += 1;
+            let again = lookup(p, 1);
+            if again != first {
+                return Err(format!("Country::try_from_coords({}, {}) answered {first} and, asked again (call {}), {again}", p.0, p.1, k + 2));
+            }
+        }
+        let ev = lookup(p, 2);
+        let n = 2 + ch.draw(3) as usize;
+        let barrier = Arc::new(Barrier::new(n));
+        let handles: Vec<_> = (0..n)
+            .map(|_| {
+                let b = barrier.clone();
+                std::thread::spawn(move || {
+                    b.wait();
+                    (0..8).map(|_| format!("{:?}", geo::country_of(p))).collect::<Vec<_>>()
+                })
+            })
+            .collect();
+        for h in handles {
+            for a in h.join().map_err(|_| "lookup thread panicked".to_string())? {
+                if a != first {
+                    return Err(format!("Country::try_from_coords({}, {}) answered {first} on the main thread and {a} on another thread", p.0, p.1));
+                }
+            }
+        }
+        if lookup(p, 2) != ev {
+            return Err(format!("evaluation under Context::from_coords({}, {}) differs between two calls", p.0, p.1));
+        }
+        case.nontrivial = j.countries.len() >= 2;
+        return Ok(());
+    }
+    // a pool of places: both sides of one or two borders and one or two places elsewhere
+    let mut pool: Vec<P> = Vec::new();
+    for _ in 0..1 + ch.draw(2) {
+        let (a, b) = if ch.chance(70) { g.zone_pairs[ch.draw(g.zone_pairs.len() as u32) as usize] } else { g.country_pairs[ch.draw(g.country_pairs.len() as u32) as usize] };
+        pool.push(a);
+        pool.push(b);
+    }
+    for _ in 0..1 + ch.draw(2) {
+        pool.push(CITIES[ch.draw(CITIES.len() as u32) as usize]);
+    }
+    let steps = 6 + ch.draw(8);
+    let mut seen: Vec<(usize, u32, String, String)> = Vec::new(); // place, op, answer, what came before
+    let mut previous = String::from("nothing");
+    let mut revisits = 0;
+    case.key = format!("places {pool:?}");
+    for _ in 0..steps {
+        let i = ch.draw(pool.len() as u32) as usize;
+        let op = ch.weighted(&[45, 25, 30]) as u32;
+        case.units += 1;
+        let a = lookup(pool[i], op);
+        if let Some(old) = seen.iter().find(|s| s.0 == i && s.1 == op) {
+            revisits += 1;
+            if old.2 != a {
+                return Err(format!(
+                    "{} of ({}, {}) is {} when asked after {}, but {} when asked after {}",
+                    op_name(op), pool[i].0, pool[i].1, cut(&old.2), old.3, cut(&a), previous
+                ));
+            }
+        } else {
+            seen.push((i, op, a, previous.clone()));
+        }
+        previous = format!("the {} of ({}, {})", op_name(op), pool[i].0, pool[i].1);
+    }
+    case.label("border_places");
+    case.nontrivial = revisits >= 2;
+    Ok(())
+}
+
+fn cut(s: &str) -> String {
+    if s.len() > 160 {
+        format!("{}...", s.chars().take(160).collect::<String>())
+    } else {
+        s.to_string()
+    }
+}
+
 fn extra(tier: Tier, seed: u64) -> Vec<SubOutcome> {
     vec![first_use(tier, seed)]
 }
@@ -665,6 +783,15 @@ pub fn property() -> Property {
                 cases_quick: 192,
                 cases_thorough: 4_000,
                 max_choices: 120,
+            },
+            SubCheck {
+                name: "lookup_histories",
+                rule: "histories of 6-13 coordinate lookups (time zone, country, evaluation of `sunrise-sunset; PH off` under Context::from_coords) over a pool of 3-6 places: both sides, a few metres apart, of one or two zone / country borders (260 + 200 border places found by bisecting the library's own lookups on a 1-degree grid) and one or two cities elsewhere: every (place, lookup) must answer the same whatever was looked up before; a quarter of the cases take a place of no supported country with two or more countries within a kilometre (90 junctions found by quadtree descent) and ask its country 25 times, then from 2-4 threads; non-trivial = at least two lookups were repeated after a different predecessor / a junction of two or more countries",
+                f: lookup_histories,
+                text_f: None,
+                cases_quick: 4_000,
+                cases_thorough: 60_000,
+                max_choices: 60,
             },
             SubCheck {
                 name: "first_use_text",
